@@ -7,6 +7,7 @@ package e1
 import (
 	"context"
 	"fmt"
+	"github.com/tikv/pd/server/config"
 	"path"
 	"strconv"
 	"time"
@@ -44,6 +45,7 @@ type Env struct {
 type Opts struct {
 	MinNodes, MaxNodes int
 	Faults             bool
+	TSOKnobs           bool // vary the TSO save interval
 	LocalTSO           bool
 	DCs                []string
 }
@@ -85,6 +87,20 @@ func Setup(rc *core.RunCtx, o Opts) *Env {
 		nd.OnStarted = func(n *harness.Node) {
 			if e.OnStart != nil {
 				e.OnStart(n)
+			}
+		}
+	}
+	if o.TSOKnobs {
+		// the distance between the in-memory clock and the stored window: the default (3s) and much shorter ones, so
+		// that "the clock catches up with the window" happens within a run
+		saveInt := rc.KnobD("tso_save_interval", 3*time.Second, 3*time.Second, 200*time.Millisecond, 20*time.Millisecond)
+		for _, nd := range e.W.Nodes {
+			prev := nd.CfgTweak
+			nd.CfgTweak = func(c *config.Config) {
+				if prev != nil {
+					prev(c)
+				}
+				c.TSOSaveInterval.Duration = saveInt
 			}
 		}
 	}
